@@ -1,1 +1,263 @@
-(* placeholder: being written *)
+(* MachineInv.v — C11 / C18 as an invariant of the unbuffered machine: whatever
+   operation is issued, every object's tree stays a clean, well-formed member of
+   its family, and what is in the backend stays valid. *)
+From Coq Require Import List ZArith NArith Bool Lia Arith Permutation.
+From SC Require Import Model.Val Model.Plain Model.Ops Model.Valid Model.Class Model.Tree Model.Machine.
+From SC Require Import Proofs.TreeDefs Proofs.TreeIds Proofs.MachineDefs.
+Import ListNotations.
+
+(* ------------------------------------------------------------------ *)
+(* class table                                                         *)
+(* ------------------------------------------------------------------ *)
+
+Lemma table_ok_cls T c : table_ok T = true -> c < length T -> cls_ok T (get_cls T c) = true.
+Proof.
+  intros H Hc. unfold table_ok in H. rewrite forallb_forall in H. apply H.
+  unfold get_cls. apply nth_In. exact Hc.
+Qed.
+
+(* every validator list that requires JSON leaves or dot-free keys also requires string keys *)
+Lemma lang3_str_keys vs :
+  (l_json_leaves (lang3 vs) = true \/ l_no_dots (lang3 vs) = true) -> l_str_keys (lang3 vs) = true.
+Proof.
+  destruct vs as [|n vs]; simpl.
+  - intros [H|H]; discriminate.
+  - intros _. destruct n; reflexivity.
+Qed.
+
+Lemma cls_facts T c :
+  table_ok T = true -> c < length T ->
+  in_backend T (backend_of T c) c = true
+  /\ backend_has_both T (backend_of T c) = true
+  /\ uniform_backend T (backend_of T c) (lang_of T c) = true
+  /\ (c_kind (get_cls T c) = KList \/ c_kind (get_cls T c) = KDict).
+Proof.
+  intros HT Hc. pose proof (table_ok_cls T c HT Hc) as H. unfold cls_ok in H.
+  apply andb_true_iff in H. destruct H as [H H3]. apply andb_true_iff in H. destruct H as [H1 H2].
+  split; [|split; [|split]].
+  - apply in_backend_spec. split; [exact Hc|reflexivity].
+  - exact H1.
+  - exact H2.
+  - apply orb_true_iff in H3. destruct H3 as [H3|H3]; apply kind_eqb_eq in H3; auto.
+Qed.
+
+(* ------------------------------------------------------------------ *)
+(* finite maps                                                         *)
+(* ------------------------------------------------------------------ *)
+
+Lemma nlookup_nset {A} k k' (v : A) l :
+  nlookup k' (nset k v l) = if Nat.eqb k' k then Some v else nlookup k' l.
+Proof.
+  induction l as [|[k0 v0] l IH]; simpl.
+  - destruct (Nat.eqb k' k); reflexivity.
+  - destruct (Nat.eqb k k0) eqn:E; simpl.
+    + apply Nat.eqb_eq in E. subst k0. destruct (Nat.eqb k' k); reflexivity.
+    + destruct (Nat.eqb k' k0) eqn:E0.
+      * apply Nat.eqb_eq in E0. subst k0. rewrite Nat.eqb_sym, E. reflexivity.
+      * exact IH.
+Qed.
+
+Lemma nlookup_None_keys {A} k (l : list (nat * A)) : ~ In k (map fst l) -> nlookup k l = None.
+Proof.
+  induction l as [|[k0 v0] l IH]; simpl; intros H.
+  - reflexivity.
+  - destruct (Nat.eqb k k0) eqn:E.
+    + apply Nat.eqb_eq in E. subst. exfalso. apply H. left; reflexivity.
+    + apply IH. intros Hin. apply H. right; exact Hin.
+Qed.
+
+Lemma nlookup_nremove {A} k k' (l : list (nat * A)) :
+  NoDup (map fst l) ->
+  nlookup k' (nremove k l) = if Nat.eqb k' k then None else nlookup k' l.
+Proof.
+  induction l as [|[k0 v0] l IH]; simpl; intros Hn.
+  - destruct (Nat.eqb k' k); reflexivity.
+  - inversion Hn as [|? ? Hnin Hn']; subst.
+    destruct (Nat.eqb k k0) eqn:E; simpl.
+    + apply Nat.eqb_eq in E. subst k0. destruct (Nat.eqb k' k) eqn:E1.
+      * apply Nat.eqb_eq in E1. subst. apply nlookup_None_keys. exact Hnin.
+      * reflexivity.
+    + destruct (Nat.eqb k' k0) eqn:E0.
+      * apply Nat.eqb_eq in E0. subst k0. rewrite Nat.eqb_sym, E. reflexivity.
+      * apply IH. exact Hn'.
+Qed.
+
+Lemma nset_keys {A} k (v : A) l x : In x (map fst (nset k v l)) <-> x = k \/ In x (map fst l).
+Proof.
+  induction l as [|[k0 v0] l IH]; simpl.
+  - split; intros [H|H]; auto.
+  - destruct (Nat.eqb k k0) eqn:E; simpl.
+    + apply Nat.eqb_eq in E. subst k0. split; intros H; intuition.
+    + rewrite IH. split; intros H; intuition.
+Qed.
+
+Lemma nset_nodup {A} k (v : A) l : NoDup (map fst l) -> NoDup (map fst (nset k v l)).
+Proof.
+  induction l as [|[k0 v0] l IH]; simpl; intros Hn.
+  - constructor; [intros []|constructor].
+  - inversion Hn as [|? ? Hnin Hn']; subst.
+    destruct (Nat.eqb k k0) eqn:E; simpl.
+    + apply Nat.eqb_eq in E. subst k0. constructor; assumption.
+    + constructor; [|auto]. rewrite nset_keys. intros [H|H].
+      * subst. rewrite Nat.eqb_refl in E. discriminate.
+      * contradiction.
+Qed.
+
+Lemma nremove_keys {A} k (l : list (nat * A)) x : In x (map fst (nremove k l)) -> In x (map fst l).
+Proof.
+  induction l as [|[k0 v0] l IH]; simpl; intros H.
+  - exact H.
+  - destruct (Nat.eqb k k0); simpl in *; [right; exact H|]. destruct H; auto.
+Qed.
+
+Lemma nremove_nodup {A} k (l : list (nat * A)) : NoDup (map fst l) -> NoDup (map fst (nremove k l)).
+Proof.
+  induction l as [|[k0 v0] l IH]; simpl; intros Hn.
+  - constructor.
+  - inversion Hn as [|? ? Hnin Hn']; subst.
+    destruct (Nat.eqb k k0); simpl; [exact Hn'|].
+    constructor; [|auto]. intros H. apply nremove_keys in H. contradiction.
+Qed.
+
+(* ------------------------------------------------------------------ *)
+(* sub-multisets: what the list operations do to the children          *)
+(* ------------------------------------------------------------------ *)
+
+Definition sub {A} (l' l : list A) : Prop := exists rest, Permutation (l' ++ rest) l.
+
+Lemma sub_refl {A} (l : list A) : sub l l.
+Proof. exists []. rewrite app_nil_r. apply Permutation_refl. Qed.
+
+Lemma sub_perm {A} (l' l m : list A) : sub l' l -> Permutation l m -> sub l' m.
+Proof. intros [r H] P. exists r. eapply Permutation_trans; eauto. Qed.
+
+Lemma sub_perm_l {A} (l' l'' l : list A) : Permutation l'' l' -> sub l' l -> sub l'' l.
+Proof.
+  intros P [r H]. exists r. eapply Permutation_trans; [|exact H].
+  apply Permutation_app_tail. exact P.
+Qed.
+
+Lemma sub_trans {A} (a b c : list A) : sub a b -> sub b c -> sub a c.
+Proof.
+  intros [r1 H1] [r2 H2]. exists (r1 ++ r2). rewrite app_assoc.
+  eapply Permutation_trans; [|exact H2]. apply Permutation_app_tail. exact H1.
+Qed.
+
+Lemma sub_nil {A} (l : list A) : sub [] l.
+Proof. exists l. apply Permutation_refl. Qed.
+
+Lemma sub_cons {A} (a : A) l' l : sub l' l -> sub (a :: l') (a :: l).
+Proof. intros [r H]. exists r. simpl. constructor. exact H. Qed.
+
+Lemma sub_skip {A} (a : A) l' l : sub l' l -> sub l' (a :: l).
+Proof.
+  intros [r H]. exists (a :: r). eapply Permutation_trans; [apply Permutation_sym, Permutation_middle|].
+  constructor. exact H.
+Qed.
+
+Lemma sub_app_r {A} (l' l m : list A) : sub l' l -> sub l' (l ++ m).
+Proof.
+  intros [r H]. exists (r ++ m). rewrite app_assoc. apply Permutation_app_tail. exact H.
+Qed.
+
+Lemma sub_app_l {A} (l' l m : list A) : sub l' l -> sub l' (m ++ l).
+Proof. intros H. eapply sub_perm; [apply sub_app_r; exact H|apply Permutation_app_comm]. Qed.
+
+Lemma sub_app {A} (a a' b b' : list A) : sub a a' -> sub b b' -> sub (a ++ b) (a' ++ b').
+Proof.
+  intros [r1 H1] [r2 H2]. exists (r1 ++ r2).
+  eapply Permutation_trans; [|apply Permutation_app; [exact H1|exact H2]].
+  rewrite <- !app_assoc. apply Permutation_app_head.
+  rewrite !app_assoc. apply Permutation_app_tail. apply Permutation_app_comm.
+Qed.
+
+Lemma sub_incl {A} (l' l : list A) : sub l' l -> incl l' l.
+Proof.
+  intros [r H] x Hx. eapply Permutation_in; [exact H|]. apply in_or_app. left; exact Hx.
+Qed.
+
+Lemma sub_Forall {A} (P : A -> Prop) l' l : sub l' l -> Forall P l -> Forall P l'.
+Proof.
+  intros S H. rewrite Forall_forall in *. intros x Hx. apply H. eapply sub_incl; eauto.
+Qed.
+
+Lemma sub_flat_map {A B} (f : A -> list B) l' l : sub l' l -> sub (flat_map f l') (flat_map f l).
+Proof.
+  intros [r H]. exists (flat_map f r). rewrite <- flat_map_app.
+  apply Permutation_flat_map. exact H.
+Qed.
+
+Lemma sub_NoDup {A} (l' l : list A) : sub l' l -> NoDup l -> NoDup l'.
+Proof.
+  intros [r H] N. apply Permutation_sym in H. apply (Permutation_NoDup H) in N.
+  apply NoDup_app_inv in N. tauto.
+Qed.
+
+Section ListSub.
+  Context {A : Type}.
+
+  Lemma sub_firstn (l : list A) n : sub (firstn n l) l.
+  Proof.
+    exists (skipn n l). rewrite firstn_skipn. apply Permutation_refl.
+  Qed.
+
+  Lemma sub_skipn (l : list A) n : sub (skipn n l) l.
+  Proof.
+    exists (firstn n l). eapply Permutation_trans; [apply Permutation_app_comm|].
+    rewrite firstn_skipn. apply Permutation_refl.
+  Qed.
+
+  Lemma sub_set_nth (l : list A) i x : sub (set_nth l i x) (x :: l).
+  Proof.
+    revert i. induction l as [|h t IH]; intros i; simpl.
+    - apply sub_nil.
+    - destruct i.
+      + apply sub_cons. apply sub_skip. apply sub_refl.
+      + eapply sub_perm; [apply sub_cons; apply IH|]. apply perm_swap.
+  Qed.
+
+  Lemma sub_del_nth (l : list A) i : sub (del_nth l i) l.
+  Proof.
+    revert i. induction l as [|h t IH]; intros i; simpl.
+    - apply sub_nil.
+    - destruct i; [apply sub_skip, sub_refl|apply sub_cons, IH].
+  Qed.
+
+  Lemma sub_firstn_skipn (l : list A) j k : j <= k -> sub (firstn j l ++ skipn k l) l.
+  Proof.
+    revert j k. induction l as [|h t IH]; intros j k H.
+    - rewrite firstn_nil, skipn_nil. apply sub_nil.
+    - destruct j as [|j]; simpl.
+      + apply sub_skipn.
+      + destruct k as [|k]; [lia|]. simpl. apply sub_cons. apply IH. lia.
+  Qed.
+
+  Lemma sub_drop_indices (l : list A) is pos : sub (drop_indices l is pos) l.
+  Proof.
+    revert pos. induction l as [|h t IH]; intros pos; simpl.
+    - apply sub_nil.
+    - destruct (existsb (Nat.eqb pos) is); [apply sub_skip, IH|apply sub_cons, IH].
+  Qed.
+
+  Lemma sub_assign_at (is : list nat) : forall (l vs : list A), sub (assign_at l is vs) (l ++ vs).
+  Proof.
+    induction is as [|i is IH]; intros l vs; simpl.
+    - apply sub_app_r, sub_refl.
+    - destruct vs as [|v vs].
+      + apply sub_app_r, sub_refl.
+      + eapply sub_trans; [apply IH|].
+        eapply sub_perm; [apply sub_app; [apply sub_set_nth|apply sub_refl]|].
+        simpl. apply Permutation_middle.
+  Qed.
+
+  Lemma sub_list_remove {B} (eqA : A -> B -> bool) (l : list A) x l' :
+    list_remove eqA l x = Ok l' -> sub l' l.
+  Proof.
+    revert l'. induction l as [|h t IH]; intros l'; simpl; intros H.
+    - discriminate.
+    - destruct (eqA h x).
+      + inversion H; subst. apply sub_skip, sub_refl.
+      + destruct (list_remove eqA t x) as [t'|e]; [|discriminate].
+        inversion H; subst. apply sub_cons. apply IH. reflexivity.
+  Qed.
+End ListSub.
